@@ -44,7 +44,7 @@ inductive COp (K V : Type) where
 inductive Pc where
   | idle
   | setReadDflt | setReadClock | setStore
-  | getLoad | getChkClock | getCompute
+  | getLoad | getChkClock | getCompute | getTTLClock
   | rmw            -- the single `Compute` of GetOrSet / GetAndSet / GetAndRefresh / GetOrCompute / Compute
   | gdCompute | gdReadCb | gdFire
   | deReadCb | deReadClock | deVisit | deCompute | deFire
@@ -74,8 +74,7 @@ structure L (K V : Type) where
   passNow : Int
   /-- the callback read at the start of the pass / after the removal -/
   ec : Option Nat
-  /-- keys still to be visited by the traversal, and the snapshot entry being processed -/
-  todo : List K
+  /-- the snapshot entry the traversal's visitor is processing -/
   cur : Option (K × Item V)
   /-- removed entries whose callback has not fired yet -/
   queue : List (K × V)
@@ -92,14 +91,16 @@ structure L (K V : Type) where
   fired : List (K × V)
 
 def L.init {K V : Type} : L K V :=
-  { pc := .idle, op := none, d := 0, e := 0, loaded := none, passNow := 0, ec := none, todo := [], cur := none,
+  { pc := .idle, op := none, d := 0, e := 0, loaded := none, passNow := 0, ec := none, cur := none,
     queue := [], removed := none, result := none, absAtLoad := none, nowAtLoad := 0, erased := [], fired := [] }
 
 /-- environment inputs of one step -/
 structure Choice (K V : Type) where
   op : Option (COp K V) := none
-  /-- which of the remaining keys the traversal reaches next (Range order is unspecified) -/
-  pick : Nat := 0
+  /-- the key the traversal hands to the visitor next (`none`: the traversal is over).  Which keys `Range` meets,
+  in which order, is the map's business (C07): a key stored after the pass began may be met, a key removed
+  meanwhile may not; the model lets the environment choose freely. -/
+  key : Option K := none
   /-- the item the traversal's bucket snapshot holds for that key (`none`: the key was not in the snapshot).
   `Range` copies a whole bucket under its lock and visits the copies afterwards, so what the visitor sees may
   be older than the current content; the model lets it be *anything* — the conditional delete re-checks. -/
@@ -163,6 +164,13 @@ def missResult (op : COp K V) : Out K V :=
   | .getWithTTL _ => .valTTL default 0 false
   | _ => .val default false
 
+/-- `get` found the live item `i`: every call of the family returns at once, except `GetWithTTL` of an entry with
+an expiration instant, which reads the clock a second time to compute the remaining lifetime -/
+def afterHit (l : L K V) (op : COp K V) (i : Item V) (now : Int) : L K V :=
+  match op with
+  | .getWithTTL _ => if i.e > 0 then { l with pc := .getTTLClock, loaded := some i } else { l with pc := .ret, result := some (hitResult op i now) }
+  | _ => { l with pc := .ret, result := some (hitResult op i now) }
+
 /-- advance the ghost abstract state by the spec step of `op` (a linearization point) -/
 def linearize (g : G K V) (op : COp K V) : G K V := { g with abs := (TTL.step g.abs (toSpec op)).1 }
 
@@ -195,7 +203,7 @@ def tstep (_t : Tid) (g : G K V) (l : L K V) (c : Choice K V) : Option (G K V ×
   | .getChkClock =>
     match l.loaded, l.op with
     | some i, some op =>
-      if !Gen.item_expired i.e g.now then some (g, { l with pc := .ret, result := some (hitResult op i g.now) })
+      if !Gen.item_expired i.e g.now then some (g, afterHit l op i g.now)
       else some (g, { l with pc := .getCompute })
     | _, _ => none
   | .getCompute =>
@@ -207,8 +215,13 @@ def tstep (_t : Tid) (g : G K V) (l : L K V) (c : Choice K V) : Option (G K V ×
         | some i' => if !Cache.expired (view g) i' then (i', false) else (default, true)
         | none => (default, true)
       some ({ g with items := r'.1 },
-            { l with pc := .ret, result := some (if r'.2.2 then hitResult op r'.2.1 g.now else missResult op) })
+            if r'.2.2 then afterHit l op r'.2.1 g.now else { l with pc := .ret, result := some (missResult op) })
     | _, _ => none
+  | .getTTLClock =>
+    -- `GetWithTTL` of an entry that can expire: `time.Until(time.Unix(0, i.e))` reads the clock once more
+    match l.loaded with
+    | some i => some (g, { l with pc := .ret, result := some (.valTTL i.v (i.e - g.now) true) })
+    | none => none
   -- ------------------------------------------------------------------ read-modify-write calls: one Compute
   | .rmw =>
     match l.op with
@@ -238,19 +251,17 @@ def tstep (_t : Tid) (g : G K V) (l : L K V) (c : Choice K V) : Option (G K V ×
     | _, _, _ => some (g, { l with pc := .ret })
   -- ------------------------------------------------------------------ DeleteExpired
   | .deReadCb => some (g, { l with pc := .deReadClock, ec := g.cb })
-  | .deReadClock => some (g, { l with pc := .deVisit, passNow := g.now, todo := g.items.keys, queue := [] })
+  | .deReadClock => some (g, { l with pc := .deVisit, passNow := g.now, queue := [] })
   | .deVisit =>
-    -- the traversal reaches some not yet visited key and sees the item its bucket snapshot holds for it
-    match l.todo with
-    | [] => some (g, { l with pc := .deFire })
-    | k0 :: _ =>
-      let k := l.todo.getD (c.pick % l.todo.length) k0
-      let rest := l.todo.filter (· ≠ k)
+    -- the traversal hands some key to the visitor, with the item its bucket snapshot holds for it
+    match c.key with
+    | none => some (g, { l with pc := .deFire })
+    | some k =>
       match c.seen with
       | some i =>
-        if Gen.item_expiredWithNow i.e l.passNow then some (g, { l with pc := .deCompute, todo := rest, cur := some (k, i) })
-        else some (g, { l with todo := rest })
-      | none => some (g, { l with todo := rest })
+        if Gen.item_expiredWithNow i.e l.passNow then some (g, { l with pc := .deCompute, cur := some (k, i) })
+        else some (g, l)
+      | none => some (g, l)
   | .deCompute =>
     match l.cur with
     | some (k, _) =>
